@@ -912,7 +912,7 @@ static void InitFields(void) {
     AddCtrl("B", 0x08);
     AddCtrl("CALL", 0x09);
     AddCtrl("BAL", 0x0b);
-    AddCtrl("BNO", 0x19);
+    AddCtrl("BNO", 0x10);
     AddCtrl("BG", 0x11);
     AddCtrl("BE", 0x12);
     AddCtrl("BGE", 0x13);
